@@ -13,23 +13,52 @@ from rules import _cxxutil_c07c08 as U
 TECHNIQUE = ("static analysis over clang's type-resolved AST of solver.cc: "
              "must-dataflow (dominance / post-dominance) and guard-shape rules")
 EXPLANATION = (
-    "Guard-rail rules on the clang AST of solver.cc. R7.1: in "
-    "Solver::FindSolution every acceptance (`return true`, recursive "
-    "RecallOrFindSolution) inside the loop over removal results is dominated "
-    "by `if (GoalsConflict(result.removed_goals)) continue`, and GoalsConflict "
-    "keys its map on goal->variable() and reports a second binding of the same "
-    "variable ('no two bindings of one variable are required together'). "
-    "R7.2: the blocked set handed to the backward path search is filled from "
-    "goal->variable()->nodes() for every remaining goal, FindNodeBackwards "
-    "forwards it, and FindShortestPathToNode tests the finish node first, then "
-    "`blocked.count(node)` before expanding incoming edges ('no variable in "
-    "the set is re-bound in between'). R7.3: a node condition is inserted into "
-    "the goal set before remove_finished_goals. R7.4: in RecallOrFindSolution "
-    "the provisional `solved_states_[state] = true` is overwritten by the real "
-    "result on every path to an exit ('repeated queries never flip'). R7.5: "
-    "Solve_ rejects a multi-binding query unless every binding is solvable "
-    "alone (CanHaveSolution loops over all goals) - the 'every goal "
-    "individually reachable / subsets accepted' clause. These are necessary "
+    "Guard-rail rules on the clang AST of solver.cc. Anchors are found by "
+    "role where a name may change: the search driver is Solver::FindSolution "
+    "(else the one Solver method calling remove_finished_goals), the loop over "
+    "removal results is the range-for whose element type is RemoveResult, the "
+    "conflict predicate is GoalsConflict as member or file-local free function, "
+    "the memo functions are the Solver methods that write solved_states_. "
+    "Once-bound locals (`const CFGNode* pos = state.pos()`, `const bool "
+    "conflict = ...`, `if (const auto* c = pos->condition())`) are replaced by "
+    "their initialiser, and calls of file-local helpers are followed with the "
+    "parameters bound to the argument terms (two levels). "
+    "R7.1: walking the body of the loop over removal results, every "
+    "acceptance (a `return` of anything but literal false, a call of a "
+    "function from which the driver is reachable again, e.g. "
+    "RecallOrFindSolution) is reachable only where the conflict test has "
+    "excluded a conflict: after a guard clause `if (GoalsConflict(result."
+    "removed_goals)) continue`, in the else-branch of that test, or inside "
+    "`if (!GoalsConflict(..)) {..}`; the test may be hoisted into a once-bound "
+    "bool or a single-return predicate; it must be applied to result."
+    "removed_goals; GoalsConflict keys its map on goal->variable() and "
+    "returns true exactly when the insertion failed ('no two bindings of one "
+    "variable are required together'). A conflict test inside a condition of "
+    "another shape, or inside a helper, is an analysis error. "
+    "R7.2: the one FindNodeBackwards call reachable from the driver (in it or "
+    "in a helper such as FindNewPositions(pos, new_goals)) starts at "
+    "state.pos() of the driver's State parameter and receives a local set "
+    "that a loop over result.new_goals (through parameter binding) fills from "
+    "goal->variable()->nodes() before the call; FindNodeBackwards forwards "
+    "(start, finish, blocked) unchanged, and in FindShortestPathToNode's "
+    "search loop the finish test (leaving the loop by break or return) comes "
+    "first, then the blocked-membership test: either a guard clause whose "
+    "condition is a disjunction containing blocked.count/contains/find(node) "
+    "and whose branch leaves the iteration, or a wrapping `if (.. && "
+    "!blocked.count(node))` that contains every expansion of node->incoming() "
+    "('no variable in the set is re-bound in between'). R7.3: "
+    "remove_finished_goals is called at state.pos() with a local goal set "
+    "into which, before the call, `if (state.pos()->condition())` (also as "
+    "if-with-declaration or `!= nullptr`) inserts that condition. R7.4: in "
+    "every Solver method that writes solved_states_ the provisional "
+    "`solved_states_[state] = true` is overwritten by the result of the "
+    "driver on every path to an exit, nothing else is stored, and the method "
+    "(and a lookup wrapper that delegates the miss to it) returns only the "
+    "cached `find(..)->second`, that result, or the memoising method's own "
+    "return value ('repeated queries never flip'). R7.5: Solve_ rejects a "
+    "multi-binding query unless every binding is solvable alone "
+    "(CanHaveSolution loops over all goals). R7.6: undo discipline of the "
+    "goal-removal state machine (see the rule). These are necessary "
     "conditions; the equivalence of the search with the path semantics is not "
     "decided (path caching, articulation points, cycle skipping are blind "
     "spots).")
@@ -37,6 +66,14 @@ ASSUMPTIONS = [
     "clang's AST is the trusted resolver",
     "only the named guards are decided; the search algorithm itself is out of "
     "reach of a static argument",
+    "a local with an initialiser that is a reference, or a const / pointer / "
+    "iterator / scalar local never assigned, incremented, address-taken or "
+    "mutated through a member call afterwards, denotes its initialiser; the "
+    "initialisers involved (state.pos(), condition(), variable()->nodes(), "
+    "find()) are const getters, i.e. pure",
+    "helpers are followed only when defined in solver.cc / solver.h and "
+    "called on `this` or as free functions, at most two levels deep; anything "
+    "deeper is reported as an analysis error, not guessed",
 ]
 
 SC = "pytype/typegraph/solver.cc"
@@ -744,6 +781,25 @@ def r7_4(ctx):
               {"returns": [str(r) for r in rets]})
 
 
+def _size_of(t, v):
+  t = uncast(t)
+  return isinstance(t, tuple) and t[0] == "mcall" and t[1] == "size" and \
+      len(t) == 3 and uncast(t[2]) == v
+
+
+def _more_than_one(t, v):
+  """t == `v.size() > 1` (also `>= 2`, `1 < v.size()`, `2 <= v.size()`)."""
+  t = uncast(t)
+  if not (isinstance(t, tuple) and len(t) == 3 and t[0] in (">", ">=", "<", "<=")):
+    return False
+  a, b = uncast(t[1]), uncast(t[2])
+  op = t[0]
+  if op in ("<", "<="):
+    a, b, op = b, a, {"<": ">", "<=": ">="}[op]
+  return _size_of(a, v) and isinstance(b, tuple) and b[0] == "int" and \
+      ((op == ">" and b[1] == 1) or (op == ">=" and b[1] == 2))
+
+
 @rule("R7.5", "C07", floor=3)
 def r7_5(ctx):
   """Multi-binding queries require every binding to be solvable alone."""
@@ -752,32 +808,54 @@ def r7_5(ctx):
   attrs = U.var_of(sv.params[0])
   node = U.var_of(sv.params[1])
   recursive = U.reaching(ix, _search_fn(ix).key)
+  env = U.once_bound_env(ix, sv)
   top = _stmts(sv.body)
+  pre_calls = _calls(ix, sv.body, "Solver::CanHaveSolution")
+  # the `return false` whose path condition contains !CanHaveSolution(..)
   pre = None
-  for i, s in enumerate(top):
-    if s.get("kind") == "IfStmt":
-      cond, then, els = _if_parts(s)
-      c = uncast(term(ix, cond))
-      if "Solver::CanHaveSolution" in str(c):
-        pre = (i, s, c, then)
-  if pre is None:
+  for r in cxx.walk(sv.body):
+    if not _ret_false(r):
+      continue
+    conds = U.path_conditions(ix, sv, r, env) or []
+    lits = []
+    for c, pol in conds:
+      lits += U.flatten(c, "&&") if pol else [("!", c)]
+    neg = [l for l in lits if isinstance(l, tuple) and l[0] == "!" and
+           str(U.call_parts(l[1])[0] or "").startswith("Solver::CanHaveSolution")]
+    if neg:
+      pre = (r, neg[0], [l for l in lits if l is not neg[0]])
+  if pre is None and pre_calls:
+    for n in cxx.walk(sv.body):
+      if n.get("kind") == "IfStmt":
+        cond, then, els = _if_parts(n)
+        lits = U.flatten(uncast(term(ix, cond, env)), "&&")
+        if any(isinstance(l, tuple) and l[0] == "!" and
+               str(U.call_parts(l[1])[0] or "").startswith("Solver::CanHaveSolution")
+               for l in lits) and not any(x.get("kind") == "ReturnStmt" for x in cxx.walk(then)):
+          ctx.bad("Solve_:precheck", SC, _line(n),
+                  "the negative outcome of CanHaveSolution does not end the "
+                  "query: its branch contains no return")
+          pre_calls = None
+          break
+  if pre is None and pre_calls:
+    raise AnalysisError("Solve_: CanHaveSolution is called but no `return false` "
+                        "is guarded by its negation; idiom not understood")
+  if pre is None and pre_calls is None:
+    pass
+  elif pre is None:
     ctx.bad("Solve_:precheck", SC, sv.line,
             "Solve_ no longer pre-checks that each binding is solvable alone")
   else:
-    i, s, c, then = pre
-    shape = isinstance(c, tuple) and c[0] == "&&" and \
-        isinstance(uncast(c[2]), tuple) and uncast(c[2])[0] == "!" and \
-        "Solver::CanHaveSolution" in str(uncast(c[2])[1])
-    lhs = uncast(c[1]) if shape else None
-    size_ok = shape and lhs[0] == ">" and "size" in str(lhs[1]) and \
-        isinstance(uncast(lhs[2]), tuple) and uncast(lhs[2])[:2] == ("int", 1)
-    call = uncast(uncast(c[2])[1]) if shape else None
-    args_ok = shape and [uncast(x) for x in call[3:]] == [attrs, node]
-    rets_false = any(_ret_false(x) for x in cxx.walk(then))
-    ctx.check(bool(shape and size_ok and args_ok and rets_false), "Solve_:precheck", SC, _line(s),
+    r, neg, rest = pre
+    i = [j for j, st in enumerate(top) if any(x is r for x in cxx.walk(st))][0]
+    s = top[i]
+    size_ok = len(rest) == 1 and _more_than_one(rest[0], attrs)
+    args_ok = U.call_parts(neg[1])[1] == [attrs, node]
+    ctx.check(bool(size_ok and args_ok), "Solve_:precheck", SC, _line(s),
               f"the precheck must be `if (attrs.size() > 1 && "
-              f"!CanHaveSolution(attrs, node)) return false`; got {c}",
-              {"cond": str(c)})
+              f"!CanHaveSolution(attrs, node)) return false`; the `return false` "
+              f"is guarded by {[neg] + rest}",
+              {"guards": [str(neg)] + [str(x) for x in rest]})
     later = [j for j, st in enumerate(top) if j != i for n in cxx.walk(st)
              if n.get("kind") == "CXXMemberCallExpr" and
              (ix.callee(n)[0] or "") in recursive]
@@ -785,18 +863,52 @@ def r7_5(ctx):
               "the precheck must precede the search", {"search_at": later, "precheck_at": i})
   ch = ix.find("Solver::CanHaveSolution")[0]
   cattrs = U.var_of(ch.params[0])
-  loops = [n for n in cxx.walk(ch.body) if n.get("kind") == "CXXForRangeStmt"]
+  cenv = U.once_bound_env(ix, ch)
+  loops = [n for n in cxx.walk(ch.body)
+           if n.get("kind") in ("CXXForRangeStmt", "ForStmt", "WhileStmt", "DoStmt")]
   if len(loops) != 1:
     raise AnalysisError("CanHaveSolution: expected one loop")
-  lv, rng, body = _range_for(loops[0])
-  over_all = uncast(term(ix, rng)) == cattrs
+  lp = loops[0]
+  if lp.get("kind") == "CXXForRangeStmt":
+    lv, rng, body = _range_for(lp)
+    over_all = uncast(term(ix, rng, cenv)) == cattrs
+    form = "range-for"
+  elif lp.get("kind") == "ForStmt":
+    # for (i = 0; i < attrs.size(); ++i) ... attrs[i]
+    init, _, cond, inc, body = (inner(lp) + [None] * 5)[:5]
+    ivs = [v for v in cxx.walk(init or {}) if v.get("kind") == "VarDecl"]
+    if len(ivs) != 1 or not inner(ivs[0]) or body is None or not cond or not inc:
+      raise AnalysisError("CanHaveSolution: index loop header not understood")
+    iv = U.var_of(ivs[0])
+    start = uncast(term(ix, inner(ivs[0])[-1]))
+    if not (isinstance(start, tuple) and start[0] == "int"):
+      raise AnalysisError(f"CanHaveSolution: index loop starts at {start}; not understood")
+    from_zero = start[1] == 0
+    c = uncast(term(ix, cond, cenv))
+    to_size = isinstance(c, tuple) and len(c) == 3 and (
+        (c[0] in ("<", "!=") and uncast(c[1]) == iv and _size_of(c[2], cattrs)) or
+        (c[0] in (">", "!=") and uncast(c[2]) == iv and _size_of(c[1], cattrs)))
+    t_inc = uncast(term(ix, inc))
+    by_one = isinstance(t_inc, tuple) and t_inc[0] in ("pre++", "post++") and uncast(t_inc[1]) == iv
+    stable = ivs[0]["id"] not in U.written_vars(body)
+    if not (to_size and by_one and stable):
+      raise AnalysisError(f"CanHaveSolution: index loop `{c}` / `{t_inc}` not understood")
+    over_all = from_zero and any(uncast(term(ix, n, cenv)) == ("index", cattrs, iv) for n in cxx.walk(body)
+                   if n.get("kind") in ("CXXOperatorCallExpr", "ArraySubscriptExpr"))
+    form = "index-for"
+  else:
+    raise AnalysisError("CanHaveSolution: loop form not understood")
+  if any(x.get("kind") in ("BreakStmt", "ContinueStmt", "GotoStmt") for x in cxx.walk(body)):
+    raise AnalysisError("CanHaveSolution: the loop over the goals can skip or "
+                        "stop early; idiom not understood")
   # inside: Solve_ on a singleton; failure returns false; tail returns true
   fails = False
   for n in cxx.walk(body):
     if n.get("kind") == "IfStmt":
       cond, then, els = _if_parts(n)
-      c = uncast(term(ix, cond))
-      if isinstance(c, tuple) and c[0] == "!" and "Solver::Solve_" in str(c[1]):
+      c = uncast(term(ix, cond, cenv))
+      if isinstance(c, tuple) and c[0] == "!" and \
+          str(U.call_parts(c[1])[0] or "").startswith("Solver::Solve_"):
         fails = any(_ret_false(x) for x in cxx.walk(then))
   tail = _stmts(ch.body)[-1]
   tail_true = _ret_true(tail)
@@ -805,7 +917,8 @@ def r7_5(ctx):
             "CanHaveSolution:every-goal-alone", SC, ch.line,
             "CanHaveSolution must loop over every start binding, return false "
             "as soon as one is not solvable alone, and true otherwise",
-            {"over_all": over_all, "fails": fails, "tail_true": bool(tail_true)})
+            {"over_all": over_all, "fails": fails, "tail_true": bool(tail_true),
+             "loop": form})
 
 
 STATE_FIELDS = ("goals_to_remove", "seen_goals", "removed_goals", "new_goals")
@@ -1218,6 +1331,39 @@ def _split_memo(final="  solved_states_[state] = result;\n"):
   ]
 
 
+
+_PRECHECK = ("  if (start_attrs.size() > 1 && !CanHaveSolution(start_attrs, start_node)) {\n"
+             "    query_metrics_.back().set_shortcircuited(true);\n"
+             "    return false;\n"
+             "  }\n")
+_CANHAVE_LOOP = ("  std::vector<const Binding*> attr;\n"
+                 "  attr.reserve(1);\n"
+                 "  for (const Binding* goal : start_attrs) {\n"
+                 "    attr.push_back(goal);\n"
+                 "    if (!Solve_(attr, start_node))\n"
+                 "      return false;\n"
+                 "    attr.clear();\n"
+                 "  }\n")
+
+
+def _nested_precheck(size="start_attrs.size() > 1", test="!all_possible", ret="      return false;\n"):
+  return (f"  const bool multiple_goals = {size};\n"
+          "  if (multiple_goals) {\n"
+          "    const bool all_possible = CanHaveSolution(start_attrs, start_node);\n"
+          f"    if ({test}) {{\n"
+          "      query_metrics_.back().set_shortcircuited(true);\n"
+          + ret + "    }\n  }\n")
+
+
+def _index_canhave(start="0", stop="i < start_attrs.size()"):
+  return (f"  for (std::size_t i = {start}; {stop}; ++i) {{\n"
+          "    const std::vector<const Binding*> single_goal(1, start_attrs[i]);\n"
+          "    if (!Solve_(single_goal, start_node)) {\n"
+          "      return false;\n"
+          "    }\n"
+          "  }\n")
+
+
 VARIANTS = [
     {"name": "conflict-guard-removed", "rule": "R7.1", "file": _tg("solver.cc"), "expect": "fire",
      "old": "    if (GoalsConflict(result.removed_goals)) {\n      LOG(INFO) << indent << \"conflicting removed goals!\";\n      continue;  // We bulk-removed goals that are internally conflicting.\n    }\n",
@@ -1393,4 +1539,25 @@ VARIANTS = [
     {"name": "memo-split-lookup-returns-constant", "rule": "R7.4", "expect": "fire",
      "edits": _split_memo() + [(_tg("solver.cc"), "    return it->second;\n  }\n  state_cache_misses_ += 1;",
                                 "    return true;\n  }\n  state_cache_misses_ += 1;")]},
+    {"name": "twin-benign-C01-r2-query-restructured", "rule": "R7.5",
+     "patch": "benign/C01-r2/patch.diff", "expect": "silent"},
+    {"name": "twin-precheck-nested-with-named-flags", "rule": "R7.5", "file": _tg("solver.cc"),
+     "expect": "silent", "old": _PRECHECK, "new": _nested_precheck()},
+    {"name": "precheck-nested-threshold-2", "rule": "R7.5", "file": _tg("solver.cc"),
+     "expect": "fire", "old": _PRECHECK, "new": _nested_precheck(size="start_attrs.size() > 2")},
+    {"name": "twin-precheck-nested-at-least-2", "rule": "R7.5", "file": _tg("solver.cc"),
+     "expect": "silent", "old": _PRECHECK, "new": _nested_precheck(size="start_attrs.size() >= 2")},
+    {"name": "precheck-nested-does-not-return", "rule": "R7.5", "file": _tg("solver.cc"),
+     "expect": "fire", "old": _PRECHECK, "new": _nested_precheck(ret="")},
+    {"name": "precheck-nested-on-positive-outcome", "rule": "R7.5", "file": _tg("solver.cc"),
+     "expect": "error", "old": _PRECHECK, "new": _nested_precheck(test="all_possible")},
+    {"name": "twin-canhave-index-loop", "rule": "R7.5", "file": _tg("solver.cc"),
+     "expect": "silent", "old": _CANHAVE_LOOP, "new": _index_canhave()},
+    {"name": "canhave-index-loop-skips-first", "rule": "R7.5", "file": _tg("solver.cc"),
+     "expect": "fire", "old": _CANHAVE_LOOP, "new": _index_canhave(start="1")},
+    {"name": "canhave-index-loop-stops-short", "rule": "R7.5", "file": _tg("solver.cc"),
+     "expect": "error", "old": _CANHAVE_LOOP, "new": _index_canhave(stop="i + 1 < start_attrs.size()")},
+    {"name": "canhave-index-loop-accepts-early", "rule": "R7.5", "file": _tg("solver.cc"),
+     "expect": "fire", "old": _CANHAVE_LOOP,
+     "new": _index_canhave().replace("      return false;\n    }\n", "      return false;\n    }\n    return true;\n")},
 ]
